@@ -68,6 +68,9 @@ def chunks(tier):
         for first in range(len(FORMULAS)):
             out.append(("F", nr, np_, first))
     out += [("L", k, 0, pat) for k in (9, 10, 11, 12) for pat in range(3)]
+    out += [("BM", 0, 0, i) for i in range(len(BM))]
+    out += [("TV", 0, 0, i) for i in range(len(TV_INSTANCES))]
+    out += [("DF", 2, 0, i) for i in range(len(DF_POOL) - 1)]
     return out
 
 
@@ -285,6 +288,18 @@ def _check_instance(res, layer, R, P, tier, modes, order):
         except Exception as e:
             out = ("EXC " + type(e).__name__, str(e)[:60])
         v = []
+        if layer == "F" and out[0] == "ok" and not trivial:
+            # the returned mappings are the caller's: they are edited (scaled, one key removed) and the same species are
+            # balanced again — the second answer is the first one again
+            try:
+                for k_ in list(r):
+                    r[k_] = r[k_] * 2
+                p.pop(next(iter(p)))
+                r2, p2 = balance_stoichiometry(rnames, pnames, **kw)
+                if (dict(r2), dict(p2)) != (out[1], out[2]) or list(r2) != rnames or list(p2) != pnames:
+                    v.append("second-call-differs-after-caller-edited-the-first-result")
+            except Exception:
+                v.append("second-call-differs-after-caller-edited-the-first-result")
         if layer == "V":
             for i in R + P:
                 obj, orig = _SHARED[(tier, i)]
@@ -411,10 +426,237 @@ def check_duplicates(res, R, P, tier):
         res.violation("C02|duplicates|%s" % what, "balance_stoichiometry(%s -> %s, underdetermined=None, allow_duplicates=True) %s: %s [%s]" % (_show("V", R, tier), _show("V", P, tier), out[0], out[1:], what), case, out, None)
 
 
+# ------------------------------------------------------------------------------------------------ layers BM / TV / DF
+BM = [
+    (["NO2", "C57H110O6", "CH4"], ["C2H6", "C", "C3H5N3O9", "C2H4"]),
+    (["C57H110O6", "O2"], ["CO2", "CO", "H2O", "C"]),
+    (["C12H22O11", "KNO3"], ["K2CO3", "N2", "CO2", "H2O", "CO"]),
+    (["C6H12O6", "O2"], ["CO2", "CO", "H2O", "C2H6O"]),
+    (["C8H18", "O2", "N2"], ["CO2", "CO", "H2O", "NO", "NO2"]),
+    (["C3H5N3O9"], ["CO2", "H2O", "N2", "O2", "NO"]),
+    (["Fe2O3", "C", "CO"], ["Fe", "Fe3O4", "CO2"]),
+    (["C57H110O6", "C3H8O3", "O2"], ["C18H36O2", "CO2", "H2O"]),
+    (["C21H30O2", "O2", "N2O"], ["CO2", "H2O", "N2", "CO", "C2H4"]),
+    (["C16H34", "O2"], ["CO2", "CO", "H2O", "C2H4", "CH4"]),
+]
+
+
+def _flatcomp(f):
+    import re
+
+    d = {}
+    for sym, n in re.findall(r"([A-Z][a-z]?)(\d*)", f):
+        d[sym] = d.get(sym, 0) + int(n or 1)
+    return d
+
+
+def _exact_min_sum(A, n):
+    """reference: minimal coefficient sum over positive integer solutions of A x = 0, by an exact (zero-gap) integer program —
+    CBC through PuLP, the environment chempy itself delegates to, invoked here with its default (exact) settings"""
+    import pulp
+
+    x = [pulp.LpVariable("v%02d" % i, lowBound=1, cat="Integer") for i in range(n)]
+    prob = pulp.LpProblem("reference", pulp.LpMinimize)
+    prob += pulp.lpSum(x)
+    for row in A:
+        prob += pulp.lpSum([x[i] * int(e) for i, e in enumerate(row)]) == 0
+    prob.solve(pulp.PULP_CBC_CMD(msg=False, gapRel=0, gapAbs=0))
+    if pulp.LpStatus[prob.status] != "Optimal":
+        return None
+    return [int(round(pulp.value(v))) for v in x]
+
+
+def check_big(res, i, order):
+    """under-determined reactions of big molecules (minimal coefficient sums of 20..250): the smallest-integers mode returns a
+    balanced positive coprime solution whose sum is the exact minimum"""
+    from chempy import balance_stoichiometry
+
+    R, P = BM[i]
+    if order == "rev":
+        R, P = R[::-1], P[::-1]
+    names = R + P
+    comps = [_flatcomp(f) for f in names]
+    keys = sorted({k for c in comps for k in c})
+    A = [[c.get(k, 0) * (-1 if j < len(R) else 1) for j, c in enumerate(comps)] for k in keys]
+    ref = _exact_min_sum(A, len(names))
+    case = dict(layer="BM", i=i, order=order)
+    res.states += 1
+    res.transitions += 1
+    res.evaluations += 1
+    res.nontrivial += 1
+    try:
+        r, p = balance_stoichiometry(R, P, underdetermined=None)
+        x = [int(dict(r, **p)[k]) for k in names]
+        got = ("ok", x)
+    except ValueError as e:
+        got = ("ValueError", str(e)[:60])
+    except Exception as e:
+        got = ("EXC " + type(e).__name__, str(e)[:60])
+    bad = None
+    if ref is None:
+        if got[0] == "ok":
+            bad = "an answer for a reaction without positive integer solution"
+    elif got[0] != "ok":
+        bad = "refused although %r balances it" % (ref,)
+    else:
+        x = got[1]
+        if any(sum(r_[j] * x[j] for j in range(len(x))) != 0 for r_ in A):
+            bad = "unbalanced"
+        elif any(v <= 0 for v in x) or reduce(gcd, x) != 1:
+            bad = "not positive coprime"
+        elif sum(x) != sum(ref):
+            bad = "coefficient sum %d, the minimum is %d (%r)" % (sum(x), sum(ref), ref)
+    res.outcomes["big:%s" % ("ok sum=%s" % (sum(ref) if ref else "-") if bad is None else "WRONG")] += 1
+    if bad:
+        res.violation("C02|mode=None|big-molecules|%s" % ("not-minimal-sum" if "minimum" in bad else "other"), "balance_stoichiometry(%r -> %r, underdetermined=None) = %r: %s" % (R, P, got, bad), case, got, ref)
+
+
+TV_INSTANCES = [  # (reactant compositions, product compositions) with a non-integral amount x = 3/2 or 1/2
+    ([{1: "3/2"}], [{1: "3"}]),
+    ([{1: 1, 2: "1/2"}, {2: 1}], [{1: 1, 2: 2}]),
+    ([{1: 2, 2: 1}, {1: 1, 2: "3/2"}], [{1: 1}, {2: 1}]),
+    ([{1: "3/2", 2: 1}], [{1: 1}, {1: 1, 2: 2}]),
+]
+TV_TYPES = ["float", "Fraction", "Decimal", "sympy.Rational", "numpy.float32", "numpy.float64"]
+
+
+def _tv_value(txt, tname):
+    import decimal
+    import numpy as np
+    import sympy
+
+    f = Fr(txt) if isinstance(txt, str) else Fr(txt)
+    if f.denominator == 1 and not isinstance(txt, str):
+        return int(f)
+    return {"float": float(f), "Fraction": f, "Decimal": decimal.Decimal(f.numerator) / decimal.Decimal(f.denominator), "sympy.Rational": sympy.Rational(f.numerator, f.denominator),
+            "numpy.float32": np.float32(float(f)), "numpy.float64": np.float64(float(f))}[tname]
+
+
+def check_types(res, i, tname, mode):
+    """composition amounts given as float / Fraction / Decimal / sympy.Rational / numpy scalars: the answer is the one the exact
+    rational linear algebra gives (or a refusal where that says so)"""
+    import sympy
+    from chempy import balance_stoichiometry, Substance
+
+    Rc, Pc = TV_INSTANCES[i]
+    names = ["r%d" % k for k in range(len(Rc))] + ["p%d" % k for k in range(len(Pc))]
+    comps = Rc + Pc
+    subs = {nm: Substance(nm, composition={k: _tv_value(v, tname) for k, v in c.items()}) for nm, c in zip(names, comps)}
+    keys = sorted({k for c in comps for k in c})
+    A = [[Fr(c.get(k, 0)) * (-1 if j < len(Rc) else 1) for j, c in enumerate(comps)] for k in keys]
+    ns, feasible, rays = analyse(A, len(names))
+    single = feasible and len(ns) == 1
+    case = dict(layer="TV", i=i, tname=tname, mode=repr(mode))
+    res.states += 1
+    res.transitions += 1
+    res.evaluations += 1
+    res.nontrivial += 1
+    try:
+        r, p = balance_stoichiometry(names[: len(Rc)], names[len(Rc):], substances=subs, underdetermined=mode)
+        x = [dict(r, **p)[k] for k in names]
+        got = ("ok", [str(v) for v in x])
+    except ValueError as e:
+        x, got = None, ("ValueError", str(e)[:60])
+    except Exception as e:
+        x, got = None, ("EXC " + type(e).__name__, str(e)[:60])
+    bad = None
+    if x is None:
+        if got[0] != "ValueError":
+            bad = "wrong exception"
+        elif single:
+            bad = "refused a single-ray reaction"
+    else:
+        resid = [sympy.expand(sum(sympy.Rational(r_[j].numerator, r_[j].denominator) * sympy.sympify(x[j]) for j in range(len(x)))) for r_ in A]
+        if any(e != 0 for e in resid):
+            bad = "unbalanced"
+        elif not feasible:
+            bad = "an answer for an infeasible system"
+        elif single and [sympy.sympify(v) for v in x] != [sympy.Integer(abs(t)) for t in primitive(ns[0])]:
+            bad = "not the unique minimal solution %r" % ([abs(t) for t in primitive(ns[0])],)
+    res.outcomes["types:%s:%s" % (tname, "ok" if bad is None else "WRONG")] += 1
+    if bad:
+        res.violation("C02|mode=%r|composition-amounts-as-%s|%s" % (mode, tname, bad.split(" %")[0].split(" [")[0][:40]), "balance_stoichiometry with amounts given as %s (%r -> %r, underdetermined=%r) = %r: %s" % (
+            tname, Rc, Pc, mode, got, bad), case, got, [abs(t) for t in primitive(ns[0])] if single else None)
+
+
+DF_POOL = ["CO", "H2", "CH4", "CO2", "H2O", "O2", "C"]
+
+
+def check_duplicates_formula(res, R, P):
+    """allow_duplicates=True, underdetermined=None through formulas, with up to four products"""
+    import sympy
+    from chempy import balance_stoichiometry
+
+    rn, pn = [DF_POOL[i] for i in R], [DF_POOL[i] for i in P]
+    case = dict(layer="DF", R=list(R), P=list(P))
+    res.states += 1
+    res.transitions += 1
+    res.evaluations += 1
+    res.nontrivial += 1
+    try:
+        r, p = balance_stoichiometry(rn, pn, underdetermined=None, allow_duplicates=True)
+        out = ("ok", {k: str(v) for k, v in r.items()}, {k: str(v) for k, v in p.items()})
+    except ValueError as e:
+        r = p = None
+        out = ("ValueError", str(e)[:60])
+    except Exception as e:
+        r = p = None
+        out = ("EXC " + type(e).__name__, str(e)[:60])
+    v = []
+    if r is not None:
+        xs = list(r.values()) + list(p.values())
+        if set(r) & set(p):
+            v.append("species-on-both-sides")
+        if not (set(r) <= set(rn) and set(p) <= set(pn)):
+            v.append("keys-not-among-given")
+        if not all(isinstance(e, int) or sympy.sympify(e).is_Integer for e in xs):
+            v.append("nonint")
+        elif any(e <= 0 for e in xs):
+            v.append("nonpositive")
+        elif reduce(gcd, [int(e) for e in xs]) != 1:
+            v.append("noncoprime")
+        else:
+            tot = {}
+            for d, sg in ((r, -1), (p, 1)):
+                for k, c in d.items():
+                    for el, n in _flatcomp(k).items():
+                        tot[el] = tot.get(el, 0) + sg * int(c) * n
+            if any(tot.values()):
+                v.append("unbalanced")
+        res.outcomes["dupF:returned"] += 1
+    else:
+        if out[0] != "ValueError":
+            v.append("wrong-exception-" + out[0][4:])
+        res.outcomes["dupF:" + out[0].split(" ")[0]] += 1
+    for what in v:
+        res.violation("C02|duplicates|formulas|%s" % what, "balance_stoichiometry(%r -> %r, underdetermined=None, allow_duplicates=True) %s: %s [%s]" % (rn, pn, out[0], out[1:], what), case, out, None)
+
+
 # ------------------------------------------------------------------------------------------------ chunks
 def run_chunk(chunk, tier):
     res = Result()
     kind, nr, np_, first = chunk
+    if kind == "BM":
+        for order in ("fwd", "rev"):
+            check_big(res, first, order)
+        res.sample(dict(layer="BM", reaction=BM[first]))
+        return res
+    if kind == "TV":
+        for tname in TV_TYPES:
+            for mode in MODES:
+                check_types(res, first, tname, mode)
+        res.sample(dict(layer="TV", instance=TV_INSTANCES[first], types=TV_TYPES))
+        return res
+    if kind == "DF":
+        idx = list(range(len(DF_POOL)))
+        for rest in itertools.combinations([i for i in idx if i > first], 1):
+            R = (first,) + rest
+            for k in (3, 4):
+                for P in itertools.combinations(idx, k):
+                    if len(set(R) & set(P)) in (1, 2):
+                        check_duplicates_formula(res, R, P)
+        res.sample(dict(layer="DF", first=DF_POOL[first], pool=DF_POOL))
+        return res
     if kind == "L":
         cls = check_instance(res, "L", (nr, first), (), tier)
         res.symbols["long-" + cls] += 1
@@ -447,7 +689,13 @@ def run_chunk(chunk, tier):
 def replay(case):
     res = Result()
     tier = case.get("tier", "quick")
-    if case["layer"] == "D":
+    if case["layer"] == "BM":
+        check_big(res, case["i"], case["order"])
+    elif case["layer"] == "TV":
+        check_types(res, case["i"], case["tname"], {"True": True, "False": False, "None": None}[case["mode"]])
+    elif case["layer"] == "DF":
+        check_duplicates_formula(res, tuple(case["R"]), tuple(case["P"]))
+    elif case["layer"] == "D":
         check_duplicates(res, tuple(case["R"]), tuple(case["P"]), tier)
     else:
         mode = {"True": True, "False": False, "None": None}[case["mode"]]
